@@ -128,7 +128,7 @@ CLAIMS = {
              "only streamed/compared/measured (no buffering or reordering), the loop has no early exit; stream-chain "
              "shape rule 'every line break is followed by the indentation', guard of the first-line indentation, "
              "tokenizer separators. Decides the no-loss/no-duplication/order and indentation clauses for all texts; "
-             "blank placement and the width clause are not decided by the quick tier.",
+             "the width clause is decided by Engine C with a ghost line-length counter and the inductive loop invariant ghost <= currLength (a line exceeds the width only if it holds the indentation and a single word); blank placement is not decided.",
         note="trusts clang AST/CFG and boost::tokenizer order",
         technique="static analysis: path counting on the loop-body CFG, use analysis, stream-chain shape rules"),
     "C18": dict(
